@@ -334,6 +334,7 @@ func randFanOp(r *rngT, k int) fanOp {
 
 // C11: fan-out, exactly once, FIFO per goroutine, whole frames, below the queue bound.
 func genC11(r *rngT, n int, tier string) {
+	genC11tcp(r, n/6+2)
 	for s := 0; s < n; s++ {
 		k := 1 + r.Intn(4)
 		m := 1 + r.Intn(5)
